@@ -60,7 +60,7 @@ CHECKS["C02"] = dict(
     technique="Lean 4 proof (one-frame lemma, induction over frames, refinement to chunked reads) + spec-encoder-driven differential correspondence",
     design="5/C02")
 CHECKS["C04"] = dict(
-    text="Raw bytes (Props/C04General.lean): valid_iff - is_valid = True iff the identification line is 7-bit and matches, data octets <= 0x80, and the text after '!' is blank or int(.,16)-parsable to the CRC-16/ARC of the bytes through '!' (int16_grammar states that grammar); valid_complete_general/_ascii, no_lf_invalid; C04Gen: translated _calculate_crc16 = model. "
+    text="Raw bytes (Props/C04General.lean): valid_iff - is_valid = True iff the identification line is 7-bit and matches, data octets <= 0x80, and the text after '!' is blank or int(.strip(),16)-parsable to the CRC-16/ARC of the bytes through '!' (end_grammar states that grammar - str.strip() white space incl. 0x1C..0x1F around the number; int16_grammar the one of int() itself, which skips C white space only); valid_complete_general/_ascii, no_lf_invalid; C04Gen: translated _calculate_crc16 = model. "
          "Theorems (Props/C04.lean): the CRC loop is CRC-16/ARC for every byte string; valid_sound: a readout built by the constructor and "
          "reported valid has a parsing identification line and, whenever the text after '!' is four hex digits (+ optional CR LF), that value "
          "equals the CRC of the bytes from '/' through '!' (0000 included); mismatch_invalid; isValid_total (never raises); valid_complete: "
